@@ -8,10 +8,10 @@ PROPS = {
             fam("re.rules", 300, 1500),
             # Go's own regexp/syntax tree of the compiled text, converted to Re, vs the real engine
             fam("c05.tree", 600, 4000),
-            # rule.Shortcut justified by the tree findRegexpShortcut consults (model) and by the compiled tree (spec)
-            fam("c05.shortcut", 600, 4000),
             # rule.Match vs pattern-only acceptance on members of L(compiled tree)
             fam("c05.url", 800, 5000),
+            # rule.Shortcut justified by the tree findRegexpShortcut consults (model) and by the compiled tree (spec)
+            fam("c05.shortcut", 600, 4000),
             # findShortcut: the IndexAny loop vs model vs first-longest-run spec (exhaustive short token strings + sampled)
             fam("c05.mask", 800, 6000),
             # Go-only law on mask rules: compiled pattern accepts url => lower(url) contains Shortcut
